@@ -172,6 +172,8 @@ func judge(c *vf.Ctx, t *Text, r ReqResult) {
 	what := t.Family
 	if t.First != "" {
 		what = "first-statement-" + t.First + "-then-write"
+	} else if t.Family == "pragma-side-effect" {
+		what = "pragma-" + pragmaName(t.SQL)
 	}
 	held := true
 	reported := map[string]bool{}
@@ -204,6 +206,22 @@ func judge(c *vf.Ctx, t *Text, r ReqResult) {
 	if held {
 		c.Held(1)
 	}
+}
+
+// pragmaName extracts the pragma's name from "PRAGMA [schema.]name…".
+func pragmaName(sql string) string {
+	f := strings.Fields(strings.ToLower(sql))
+	if len(f) < 2 {
+		return "unknown"
+	}
+	n := f[1]
+	if i := strings.IndexAny(n, "=(;"); i >= 0 {
+		n = n[:i]
+	}
+	if i := strings.LastIndex(n, "."); i >= 0 {
+		n = n[i+1:]
+	}
+	return n
 }
 
 func describe(r ReqResult) string {
